@@ -703,6 +703,14 @@ func (e *Exec) havocForCall(st *State, callee *ssa.Function, cc *ssa.CallCommon,
 			}
 		}
 		all = fp.all
+		e.callExcept = fp.except
+		defer func() { e.callExcept = nil }()
+		// interior pointers passed in: the callee's writes through them land in the caller-side storage
+		for _, a := range args {
+			if a.A != nil {
+				e.argKeys(a, keys)
+			}
+		}
 	} else {
 		// external / dynamic: may write through pointer and slice arguments only (assumption A-ext)
 		if callee == nil || !pureExternal(callee) {
@@ -920,6 +928,10 @@ func (e *Exec) havocKeysW(st *State, keys map[string]string, all bool, written m
 
 func (e *Exec) havocKeysB(st *State, keys map[string]string, all bool, written map[*ssa.FreeVar]bool, body map[*ssa.BasicBlock]bool) {
 	var havocked []string
+	explicit := map[string]bool{}
+	for k := range keys {
+		explicit[k] = true
+	}
 	priv := e.privateCells(st, written)
 	if written == nil || body != nil {
 		for _, mm := range e.privateMaps(st, body) {
@@ -932,17 +944,27 @@ func (e *Exec) havocKeysB(st *State, keys map[string]string, all bool, written m
 		}
 	}
 	if all {
+		saved := e.keepTypes
+		if body != nil && len(e.loopExcept) > 0 {
+			e.keepTypes = append(append([]string(nil), saved...), e.loopExcept...)
+		} else if body == nil && len(e.callExcept) > 0 {
+			e.keepTypes = append(append([]string(nil), saved...), e.callExcept...)
+		}
 		for k, s := range e.memSort {
 			if strings.HasPrefix(k, "L|") || strings.HasPrefix(k, "IT|") || k == "top" || strings.HasPrefix(k, "ghost|") {
 				continue
 			}
+			if !explicit[k] && e.keepsType(k) {
+				continue
+			}
 			keys[k] = s
 		}
+		e.keepTypes = saved
 		st.mem["*all"] = "1"
 	}
 	for _, k := range sortedKeys(keys) {
 		srt := keys[k]
-		if e.keepsType(k) {
+		if e.keepsType(k) && body == nil {
 			continue
 		}
 		before := e.memGet(st, k, srt) // make sure the entry value exists (for old())
